@@ -618,7 +618,7 @@ pub fn format_code(
 					&mut tmp_out,
 					value,
 					padding,
-					fpprec - 1,
+					fpprec.saturating_sub(1),
 					clfags.blank,
 					clfags.sign,
 					clfags.alt,
@@ -631,7 +631,7 @@ pub fn format_code(
 					&mut tmp_out,
 					value,
 					padding,
-					fpprec - digits_before_pt,
+					fpprec.saturating_sub(digits_before_pt),
 					clfags.blank,
 					clfags.sign,
 					clfags.alt,
